@@ -11,10 +11,13 @@
 enum { VK_NONE = 0, VK_INT, VK_UINT, VK_LONG, VK_ULONG, VK_DOUBLE, VK_STR };
 struct varg { int kind; long long i; double d; const char *s; };
 int verif_asprintf(char **strp, const char *fmt, struct varg a, struct varg b);
-#define VARG(x) ((struct varg){                                                     \
+/* (x) + 0 applies the default promotions and decays string literals/arrays
+ * (CBMC's _Generic does not decay arrays by itself) */
+#define VARG(x) VARG_((x) + 0)
+#define VARG_(x) ((struct varg){                                                    \
   _Generic((x), int: VK_INT, unsigned: VK_UINT, long: VK_LONG, unsigned long: VK_ULONG, \
                 long long: VK_LONG, unsigned long long: VK_ULONG,                    \
-                float: VK_DOUBLE, double: VK_DOUBLE, char *: VK_STR, const char *: VK_STR, char: VK_INT), \
+                float: VK_DOUBLE, double: VK_DOUBLE, char *: VK_STR, const char *: VK_STR), \
   _Generic((x), char *: 0, const char *: 0, float: 0, double: 0, default: (x)),       \
   _Generic((x), char *: 0.0, const char *: 0.0, default: (x)),                        \
   _Generic((x), char *: (x), const char *: (x), default: (const char *)0) })
